@@ -629,7 +629,8 @@ def make_custom_sched(profile):
     def custom(tier, rng, facts, replay=None):
         import collections
         cov = dict(profile=profile, guided_cases=0, accepted_labels=0, free_cases=0, configs=[], disagreements=0, oracle_failures=0, crashes=0,
-                   label_kinds={}, stale_loads=0, final_states={}, payloads={'with destructor': 0, 'without drop glue': 0})
+                   label_kinds={}, stale_loads=0, final_states={}, payloads={'with destructor': 0, 'without drop glue': 0},
+                   handles_held_as={'Arc': 0, 'OffsetArc': 0, 'OffsetArc on odd threads': 0})
         problems = []; nontrivial = set(); samples = []
         CP = facts.get('count_progs') or {}
         if not all(k in CP for k in ('drop', 'uniq', 'uoc')):
@@ -650,8 +651,8 @@ def make_custom_sched(profile):
                 for cid, ops in load_corpus('sched-' + profile):
                     if (tag == 'f') == all(len(l) == 3 for l in ops[1:]): stream_cases.append((cid, ops))
                 for i in range(cnt):
-                    n = rng.choice([2, 3, 3]); pay = rng.choice([0, 0, 1])
-                    stream_cases.append(('%s%d' % (tag, i), [[199, n, pay]] + sched_gen(rng, profile, n, rng.randrange(40, 400), free=(tag == 'f'))))
+                    n = rng.choice([2, 3, 3]); pay = rng.choice([0, 0, 1]); hk = rng.choice([0, 0, 1, 2])
+                    stream_cases.append(('%s%d' % (tag, i), [[199, n, pay, hk]] + sched_gen(rng, profile, n, rng.randrange(40, 400), free=(tag == 'f'))))
         # the model accepts a sub-sequence of each guided raw stream and says what each accepted label looks like
         mobs = {}
         raw_guided = [c for c in guided if all(len(l) == 3 for l in c[1][1:])]
@@ -676,6 +677,7 @@ def make_custom_sched(profile):
                 real_guided.append((cid, ops))
         for cid, ops in guided + free:
             cov['payloads']['without drop glue' if len(ops[0]) > 2 and ops[0][2] == 1 else 'with destructor'] += 1
+            cov['handles_held_as'][['Arc', 'OffsetArc', 'OffsetArc on odd threads'][ops[0][3] if len(ops[0]) > 3 and ops[0][3] < 3 else 0]] += 1
         cov['guided_cases'] = len(real_guided); cov['free_cases'] = len(free)
         cfgs = [('cfg_default', 'debug'), ('cfg_default', 'release')] + ([('cfg_nostd', 'release'), ('cfg_all', 'release')] if tier == 'thorough' else [])
         evaluations = 0
@@ -747,7 +749,7 @@ def make_custom_sched(profile):
 
 def SCHED_STREAM(profile):
     return dict(stream='sched-' + profile, custom=make_custom_sched(profile), custom_replay=True,
-                rule='real threads of the real crate (Arc<payload> with and without drop glue, 2-3 threads) are serialised by the harness: a thread is released up to its next atomic operation on the counter, to the payload destructor or to the payload clone; loads may be handed any older value of the counter that the thread\'s view allows. GUIDED schedules: random label streams filtered by the ConcX machine running the counter programs translated from the source; every accepted label is compared (operation, ordering, value read, what the step does, whether the function returns) and so is the final state (destroyed, released, raced, leaked, handles per thread), the implementation side computing happens-before from the orderings the crate really used. FREE schedules: the same on the implementation alone, as a search for a failing schedule. Profile %s. distinct = distinct accepted guided schedules of 4 or more labels' % profile)
+                rule='real threads of the real crate (Arc<payload> with and without drop glue, 2-3 threads, handles held as Arc or as OffsetArc between operations) are serialised by the harness: a thread is released up to its next atomic operation on the counter, to the payload destructor or to the payload clone; loads may be handed any older value of the counter that the thread\'s view allows. GUIDED schedules: random label streams filtered by the ConcX machine running the counter programs translated from the source; every accepted label is compared (operation, ordering, value read, what the step does, whether the function returns) and so is the final state (destroyed, released, raced, leaked, handles per thread), the implementation side computing happens-before from the orderings the crate really used. FREE schedules: the same on the implementation alone, as a search for a failing schedule. Profile %s. distinct = distinct accepted guided schedules of 4 or more labels' % profile)
 
 # ============================================================================
 # miri scenarios: the abstract machine as an oracle on the real crate (provenance, uninitialised reads, the layout a
